@@ -16,7 +16,7 @@
 EXTENDS MonBase
 
 NoFrag == [has |-> FALSE, active |-> FALSE, seq |-> -1, bid |-> -1, ids |-> <<>>,
-           t |-> 0, sends |-> 0]
+           t |-> 0, sends |-> 0, bc |-> 0]      \* bc: generation of the broadcast this fragment reported
 
 LInit(cfg, sc, viol) ==
     [cfg |-> cfg, sc |-> sc, viol |-> viol,
@@ -25,7 +25,7 @@ LInit(cfg, sc, viol) ==
      rd  |-> [pend |-> FALSE, seq |-> -1, hdrs |-> <<>>, bid |-> -1],
      ser |-> [active |-> FALSE, S |-> <<>>, check |-> FALSE, next |-> -1],
      ovf |-> FALSE, rst |-> TRUE,
-     bc  |-> [set |-> FALSE, man |-> FALSE, reported |-> FALSE, maybe |-> FALSE],
+     bc  |-> [set |-> FALSE, man |-> FALSE, reported |-> FALSE, maybe |-> FALSE, gen |-> 0],
      app |-> cfg.app,
      lastReq |-> [bid |-> -1, seq |-> -1],
      repeat |-> FALSE,
@@ -158,9 +158,8 @@ ApplyStimulus(L, e, l) ==
                   \* reported it; after any other confirm its state is not determined by the property
                   LET f == IF e.uns THEN L.uns ELSE L.sol
                       hit == f.has /\ f.seq = e.seq /\ Awaiting(f, L, e.t)
-                  IN IF L2.bc.set /\ L2.bc.man /\ L2.bc.reported
-                       THEN (IF hit THEN [L2 EXCEPT !.bc.set = FALSE]
-                                    ELSE [L2 EXCEPT !.bc.maybe = TRUE])
+                  IN IF L2.bc.set /\ L2.bc.man /\ hit /\ f.bc = L2.bc.gen
+                       THEN [L2 EXCEPT !.bc.set = FALSE]
                        ELSE L2
                ELSE
                   LET rep == Unicast(e, L.cfg) /\ e.bid = L.lastReq.bid /\ e.seq = L.lastReq.seq
@@ -175,12 +174,17 @@ ApplyStimulus(L, e, l) ==
                                 !.rd = IF e.fc = 1 /\ Unicast(e, L.cfg) /\ e.wf
                                          THEN [pend |-> TRUE, seq |-> e.seq, hdrs |-> e.hdrs, bid |-> e.bid]
                                          ELSE [@ EXCEPT !.pend = FALSE],
-                                !.rst = IF ClearsRestart(e) /\ (Unicast(e, L.cfg) \/ L.cfg.broadcast)
+                                \* (a unicast WRITE takes effect when its reply is written, see ApplyTx)
+                                !.rst = IF ClearsRestart(e) /\ Broadcast(e) /\ L.cfg.broadcast
                                           THEN FALSE ELSE @,
-                                !.bc = IF Broadcast(e)
+                                \* a fragment rejected at the application header (unknown function code,
+                                \* bad header flags) never reaches the place where the broadcast is
+                                \* latched: whether it counts as "a received broadcast" is left open
+                                !.bc = IF Broadcast(e) /\ e.fc <= 33 /\ e.fir /\ e.fin /\ ~e.uns
                                          THEN [set |-> TRUE, man |-> e.dst = "BC_MAN", reported |-> FALSE,
-                                               maybe |-> FALSE]
-                                         ELSE @]
+                                               maybe |-> FALSE, gen |-> @.gen + 1]
+                                       ELSE IF Broadcast(e) THEN [@ EXCEPT !.maybe = TRUE]
+                                       ELSE @]
                   IN L3
       [] OTHER -> L0
 
@@ -239,8 +243,14 @@ IsSolEcho(L, x)    == ~x.uns /\ L.repeat /\ Awaiting(L.sol, L, x.t)
 \* (a retransmitted DISABLE is not executed again and ends nothing)
 EndsUnsolWait(L, e, x) == ~x.uns /\ e.k = "rx" /\ e.fc = 21 /\ e.wf /\ x.seq = e.seq /\ ~L.repeat
 
-ApplyTx(L00, x, e, l) ==
-    LET L == IF EndsUnsolWait(L00, e, x) THEN [L00 EXCEPT !.uns.active = FALSE] ELSE L00 IN
+\* the reply to an executed WRITE of g80v1[7]=0 marks the moment the restart latch was cleared (an
+\* unsolicited response written earlier on the same line still shows the bit)
+ClearsRestartNow(L, e, x) == ~x.uns /\ e.k = "rx" /\ x.seq = e.seq /\ ClearsRestart(e) /\ ~L.repeat
+                               /\ SrcOk(e, L.cfg) /\ Unicast(e, L.cfg)
+
+ApplyTx(L000, x, e, l) ==
+    LET L00 == IF ClearsRestartNow(L000, e, x) THEN [L000 EXCEPT !.rst = FALSE] ELSE L000
+        L == IF EndsUnsolWait(L00, e, x) THEN [L00 EXCEPT !.uns.active = FALSE] ELSE L00 IN
     IF IsUnsolRetry(L, x) THEN [L EXCEPT !.uns.t = x.t, !.uns.sends = @ + 1, !.sent = @ \cup {x.bid}]
     ELSE IF IsSolEcho(L, x) THEN [L EXCEPT !.sol.t = x.t, !.sol.sends = @ + 1, !.rd.pend = FALSE,
                                            !.sent = @ \cup {x.bid}]
@@ -258,12 +268,14 @@ ApplyTx(L00, x, e, l) ==
     IN
     IF x.uns THEN
         [L2 EXCEPT !.uns = [has |-> TRUE, active |-> x.con, seq |-> x.seq, bid |-> x.bid,
-                            ids |-> ids, t |-> x.t, sends |-> 1]]
+                            ids |-> ids, t |-> x.t, sends |-> 1, bc |-> IF x.iin.bc THEN L2.bc.gen ELSE 0]]
     ELSE
         \* solicited: start of a series?
         LET starts == x.fir /\ L2.rd.pend /\ x.seq = L2.rd.seq
             L3 == IF starts
                     THEN [L2 EXCEPT !.rd.pend = FALSE,
+                                    \* a deferred READ becomes "the request processed last" when it is answered
+                                    !.lastReq = [bid |-> L2.rd.bid, seq |-> L2.rd.seq],
                                     !.ser = [active |-> TRUE,
                                              S |-> Selected(L2, L2.rd.hdrs),
                                              check |-> AllModelled(L2.rd.hdrs) /\ ~Iin2Err(x),
@@ -285,7 +297,7 @@ ApplyTx(L00, x, e, l) ==
                     ELSE L5
         IN IF x.con \/ ids # <<>>
              THEN [L6 EXCEPT !.sol = [has |-> TRUE, active |-> x.con, seq |-> x.seq, bid |-> x.bid,
-                                      ids |-> ids, t |-> x.t, sends |-> 1]]
+                                      ids |-> ids, t |-> x.t, sends |-> 1, bc |-> IF x.iin.bc THEN L2.bc.gen ELSE 0]]
              ELSE L6
 
 =============================================================================
